@@ -55,9 +55,11 @@ def make_files(ck):
     cdir = os.path.join(VERIF, "corpus", "C11")
     if os.path.isdir(cdir):
         for fn in sorted(os.listdir(cdir)):
-            fmt = {"lp": "LP", "mps": "MPS", "bas": "BAS"}.get(fn.rsplit(".", 1)[-1])
+            parts = fn.split(".")
+            cext = "." + parts[-1] if parts[-1] in ("gz", "bz2") and len(parts) > 2 else ""
+            fmt = {"lp": "LP", "mps": "MPS", "bas": "BAS"}.get(parts[-2] if cext else parts[-1])
             if fmt:
-                add("corpus", fmt, open(os.path.join(cdir, fn), "rb").read())
+                add("corpus", fmt, open(os.path.join(cdir, fn), "rb").read(), cext)
     n = 6000 if ck.thorough() else 330
     step = 1 if ck.thorough() else 2
     for base, fmt in ((G.SMALL_LP, "LP"), (G.SMALL_LP2, "LP"), (G.SMALL_MPS, "MPS"), (G.SMALL_BAS, "BAS")):
